@@ -41,6 +41,33 @@ func policyTape(f func(bound uint32, i int) uint32) *tape.Tape {
 	return t
 }
 
+// modelVerdict says whether the library must accept, must refuse or may do
+// either for a character recipe at the current MaxTrials/MaxFailRate.
+func modelVerdict(r ref.CharRecipe) string {
+	ab := r.Alphabet()
+	if r.Length < 1 || len(ab) == 0 {
+		return "refuse"
+	}
+	if r.EmptiedReq() {
+		return "either"
+	}
+	cnt := r.Count()
+	if cnt.Sign() == 0 {
+		return "refuse"
+	}
+	den := new(big.Int).Exp(big.NewInt(int64(len(ab))), big.NewInt(int64(r.Length)), nil)
+	p := new(big.Rat).SetFrac(cnt, den)
+	q := new(big.Float).SetPrec(300).SetRat(new(big.Rat).Sub(big.NewRat(1, 1), p))
+	f, _ := bigPow(q, spg.MaxTrials).Float64()
+	switch {
+	case f > spg.MaxFailRate*1.05:
+		return "refuse"
+	case f < spg.MaxFailRate*0.95:
+		return "accept"
+	}
+	return "either"
+}
+
 // pow computes x^n in 300-bit floats.
 func bigPow(x *big.Float, n int) *big.Float {
 	r := new(big.Float).SetPrec(300).SetInt64(1)
